@@ -41,12 +41,16 @@ def tasks(tier, seed):
             ts.append({"part": "hs-tokens", "first": first, "second": None, "depth": depth, "name": "hs-tokens/%d" % first})
     ts.append({"part": "hs-corrupt", "name": "hs-corrupt"})
     ts.append({"part": "hs-special", "name": "hs-special"})
+    ts.append({"part": "hs-fields", "name": "hs-fields"})
     for lo in range(0, 256, 16):
         ts.append({"part": "fr-headers", "lo": lo, "hi": lo + 16, "name": "fr-headers/%d" % lo})
     ts.append({"part": "fr-lengths", "name": "fr-lengths"})
     ts.append({"part": "fr-corrupt", "name": "fr-corrupt"})
     for first in range(len(valid_frames())):
         ts.append({"part": "fr-valid", "first": first, "name": "fr-valid/%d" % first})
+    # seeded random streams: a supplement, never what the verdict rests on
+    for k in range(8):
+        ts.append({"part": "random", "k": k, "seed": seed, "n": 1500 if tier == "quick" else 12000, "name": "random/%d" % k})
     return ts
 
 
@@ -98,7 +102,7 @@ def classify_exc(e, sock):
     return type(e).__name__
 
 
-def hs_case(resp, ending, redirect_limit=None):
+def hs_case(resp, ending, redirect_limit=None, subprotocols=None):
     """connect() against a scripted response. Returns failure or None."""
     lib.reset_globals()
     env.install_urandom("counter")
@@ -118,6 +122,8 @@ def hs_case(resp, ending, redirect_limit=None):
     kw = {}
     if redirect_limit is not None:
         kw["redirect_limit"] = redirect_limit
+    if subprotocols:
+        kw["subprotocols"] = list(subprotocols)
     try:
         ws.connect("ws://example.com/chat", socket=sock, **kw)
         out = ("ret",)
@@ -298,6 +304,36 @@ def run_task(desc):
             rec(({"kind": "peer-sized-read", "phase": "handshake-metamorphic"}, "largest transport read depends on the declared Content-Length: %r" % maxes),
                 {"case": "hs-meta"})
         res["samples"].append({"special_responses": [s[:50].decode("latin-1") for s in specials[:6]]})
+    elif part == "hs-fields":
+        # a valid 101 response in which one header value (or name) is replaced by an unusual but syntactically possible string
+        VALUES = [b"", b" ", "\u00f6".encode(), "x\u20acy".encode(), "\U0001f600".encode(), b"a" * 5000, b"\x01\x02", b"=", b";", b",", b"a=b; c", b"\t", b"0", b"-1",
+                  b"websocket", b"Upgrade", b"websocket, \xc3\xa9", b"=;=;", b"a=1; Domain=", b"a=1; Domain=.", "a=1; Domain=\u00e9.example".encode(), b"; Domain=x"]
+        NAMES = [b"Upgrade", b"Connection", b"Sec-WebSocket-Accept", b"Sec-WebSocket-Protocol", b"Sec-WebSocket-Extensions", b"Set-Cookie", b"Location", b"Content-Length",
+                 "X-\u00e9".encode(), b"Host", b""]
+
+        def mk(name, value, mode):
+            def f(req):
+                lines = [b"HTTP/1.1 101 Switching Protocols", b"Upgrade: websocket", b"Connection: Upgrade",
+                         b"Sec-WebSocket-Accept: " + HS.accept_for(req["key"]).encode()]
+                if mode == "replace":
+                    lines = [ln for ln in lines if not ln.lower().startswith(name.lower() + b":")]
+                    lines.append(name + b": " + value)
+                elif mode == "add":
+                    lines.append(name + b": " + value)
+                else:
+                    lines[0] = b"HTTP/1.1 101 " + value
+                return b"\r\n".join(lines) + b"\r\n\r\n"
+            return f
+        for name in NAMES:
+            for value in VALUES:
+                for mode in ("replace", "add"):
+                    for subp in (None, ["chat"]):
+                        n += 1
+                        rec(guarded(hs_case, mk(name, value, mode), "eof", None, subp), {"case": "hs-field", "name": name, "value": value, "mode": mode, "subp": subp})
+        for value in VALUES:
+            n += 1
+            rec(guarded(hs_case, mk(b"", value, "status"), "eof"), {"case": "hs-field", "name": b"", "value": value, "mode": "status", "subp": None})
+        res["samples"].append({"header_names": [x.decode("latin-1") for x in NAMES[:6]], "values": len(VALUES)})
     elif part == "fr-headers":
         for b0 in range(desc["lo"], desc["hi"]):
             for b1 in range(256):
@@ -350,6 +386,38 @@ def run_task(desc):
                     n += 1
                     rec(guarded(fr_case, s, ending, api), {"case": "fr", "stream": s, "ending": ending, "api": api, "one": False})
         res["samples"].append({"valid_stream_hex": valid[:40].hex(), "corruptions": len(cases)})
+    elif part == "random":
+        import random
+        rnd = random.Random(desc["seed"] * 1000 + desc["k"])
+        VF = valid_frames()
+        for i in range(desc["n"]):
+            mode = i % 4
+            if mode == 0:
+                s = bytes(rnd.randrange(256) for _ in range(rnd.randrange(0, 24)))
+            elif mode == 1:
+                # plausible header, random rest
+                b0 = rnd.choice([0x81, 0x82, 0x01, 0x02, 0x80, 0x00, 0x88, 0x89, 0x8a]) ^ (rnd.randrange(256) if rnd.random() < 0.1 else 0)
+                ln = rnd.choice([0, 1, 2, 5, 125, 126, 127])
+                s = bytes([b0, ln | (0x80 if rnd.random() < 0.3 else 0)]) + bytes(rnd.randrange(256) for _ in range(rnd.randrange(0, 20)))
+            elif mode == 2:
+                s = b"".join(rnd.choice(VF) for _ in range(rnd.randrange(1, 5)))
+                if s and rnd.random() < 0.7:
+                    j = rnd.randrange(len(s))
+                    s = s[:j] + bytes([rnd.randrange(256)]) + s[j + 1:]
+            else:
+                s = None
+            ending = rnd.choice(ENDINGS)
+            if s is not None:
+                api = rnd.choice(["recv", "recv_data_frame", "recv_frame", "close"])
+                n += 1
+                rec(guarded(fr_case, s, ending, api, rnd.random() < 0.2), {"case": "fr", "stream": s, "ending": ending, "api": api, "one": False})
+            else:
+                toks = [rnd.choice(TOKENS + [b"HTTP/1.1 101 OK\r\n", b"Upgrade: websocket\r\n", b"Connection: Upgrade\r\n", b"\r\n\r\n", b"Set-Cookie: ", b"=", b";"])
+                        for _ in range(rnd.randrange(1, 9))]
+                r = b"".join(toks)
+                n += 1
+                rec(guarded(hs_case, r, ending), {"case": "hs", "resp": r, "ending": ending})
+        res["extra"]["sampled_random_streams"] = n
     elif part == "fr-valid":
         VF = valid_frames()
         for k in (1, 2, 3):
@@ -376,6 +444,6 @@ def replay(rep):
     elif c == "fr" and "declared" not in rep:
         f = fr_case(rep["stream"], rep["ending"], rep["api"], rep.get("one", False))
     else:
-        res = run_task({"part": {"hs-corrupt": "hs-corrupt", "hs-meta": "hs-special", "fr-meta": "fr-lengths", "fr": "fr-lengths"}[c], "name": "replay"})
+        res = run_task({"part": {"hs-corrupt": "hs-corrupt", "hs-meta": "hs-special", "fr-meta": "fr-lengths", "fr": "fr-lengths", "hs-field": "hs-fields"}[c], "name": "replay"})
         return res["failures"][0]["what"] if res["failures"] else None
     return None if f is None else {"sig": f[0], "what": f[1]}
